@@ -338,6 +338,28 @@ Example C19_hockney_nonvacuous :
   Qred (potential (2, 1, 1)%nat 1 G r 0%nat 0%nat 0%nat) = 11 /\ Qred (potential (2, 1, 1)%nat 1 G r 1%nat 0%nat 0%nat) = 13.
 Proof. vm_compute. split; reflexivity. Qed.
 
+(* ======================================================================================================================
+   Part 3 (real numbers; model SpaceCharge/Igf.v): the formula of _integrated_potential and the 8-corner sum G_values
+   ====================================================================================================================== *)
+From Coq Require Import Reals.
+From Cheetah Require Import SpaceCharge.Igf.
+
+(* _integrated_potential is odd in each argument (all reals) ... *)
+Theorem C19_integrated_potential_odd : forall x y t : R,
+  (ipot (- x) y t = - ipot x y t /\ ipot x (- y) t = - ipot x y t /\ ipot x y (- t) = - ipot x y t)%R.
+Proof. exact (fun x y t => conj (ipot_odd_x x y t) (conj (ipot_odd_y x y t) (ipot_odd_t x y t))). Qed.
+
+(* ... hence the integrated Green function (alternating sum over the 8 corners of the cell at offset (i, j, k)) depends on the
+   absolute offsets only: what the mirrored layout of the doubled array relies on *)
+Theorem C19_igf_depends_on_abs_offsets : forall dx dy dt i j k : R,
+  igf dx dy dt i j k = igf dx dy dt (Rabs i) (Rabs j) (Rabs k).
+Proof. exact igf_abs. Qed.
+
+(* the 1/gamma^2 applied to all three gradients: electric force minus the magnetic force of the co-moving bunch *)
+Theorem C19_lorentz_cancellation : forall E beta gamma : R, (gamma ^ 2 * (1 - beta ^ 2) = 1)%R ->
+  (E - beta * (beta * E) = E * / gamma ^ 2)%R.
+Proof. exact lorentz_cancellation. Qed.
+
 Print Assumptions C19_green_layout.
 Print Assumptions C19_hockney1_is_open_convolution.
 Print Assumptions C19_hockney_is_open_convolution.
@@ -358,3 +380,6 @@ Print Assumptions C19_hockney_force_centre_plane_x.
 Print Assumptions C19_hockney_third_law_x.
 Print Assumptions C19_third_law_boundary_refuted.
 Print Assumptions C19_hockney_nonvacuous.
+Print Assumptions C19_integrated_potential_odd.
+Print Assumptions C19_igf_depends_on_abs_offsets.
+Print Assumptions C19_lorentz_cancellation.
